@@ -8,6 +8,7 @@
 """
 from facts import AnalysisBroken, access_path, strip_casts, unparse, init_rows
 from rules_common import where
+from flow import atom, cmp_parts
 
 ENC_FIELDS = {"bytecode_append_int": "int", "bytecode_append_uint32": "uint32",
               "bytecode_append_uint64": "uint64", "bytecode_append_string": "string"}
@@ -149,7 +150,7 @@ def run(ctx):
     # flags: tag precedes the opcode in the encoder; decoder applies then resets
     fl_enc = False
     for n in enc.walk():
-        if n.k == "IfStmt" and unparse(n.c[0]) == "insn->flags":
+        if n.k == "IfStmt" and atom(n.c[0], True)[1] is True and unparse(atom(n.c[0], True)[0]) == "insn->flags":
             calls = [c for c in n.c[1].walk() if c.k == "CallExpr"]
             if len(calls) >= 2 and calls[0].name == "bytecode_append_code" and calls[0].args()[1].v == enums.get("ORC_BC_INSTRUCTION_FLAGS") \
                     and calls[1].name == "bytecode_append_int" and unparse(calls[1].args()[1]) == "insn->flags":
@@ -335,9 +336,9 @@ def run(ctx):
     rep.check(se == [0, ("const", 255), 0, 8] and sd == [0, 0, 8], "D4-CODEC", "orc/orcbytecode.c::bytecode_append_int", "escape",
               "one byte below 255, else 255 + low + high; decoder mirrors it", "integer escape codec differs: encoder %s decoder %s" % (se, sd))
     ai = db.func("bytecode_append_int", "orcbytecode")
-    thr_e = [strip_casts(n.c[0].c[1]).v for n in ai.walk() if n.k == "IfStmt" and n.c[0].k == "BinaryOperator" and n.c[0].op == "<"]
+    thr_e = [cmp_parts(n.c[0])[2].v for n in ai.walk() if n.k == "IfStmt" and cmp_parts(n.c[0]) and cmp_parts(n.c[0])[1] == "<"]
     gi = db.func("orc_bytecode_parse_get_int", "orcbytecode")
-    thr_d = [strip_casts(n.c[0].c[1]).v for n in gi.walk() if n.k == "IfStmt" and n.c[0].k == "BinaryOperator" and n.c[0].op == "=="]
+    thr_d = [cmp_parts(n.c[0])[2].v for n in gi.walk() if n.k == "IfStmt" and cmp_parts(n.c[0]) and cmp_parts(n.c[0])[1] == "=="]
     rep.check(thr_e[:1] == [255] and thr_d == [255], "D4-CODEC", "orc/orcbytecode.c::bytecode_append_int", "threshold",
               "escape threshold 255 on both sides", "escape thresholds differ: encoder %s decoder %s" % (thr_e, thr_d))
 
